@@ -2,7 +2,7 @@
     (observations written by the c02 and c17 harness files under harness/p9 and harness/vecnet) with the
     models of Frame/Model.v and Frame/Reader.v, evaluated by vm_compute (C02, C17). *)
 From Coq Require Import NArith List Bool String Ascii.
-From P9V Require Import gen.ConstGen gen.FrameGen Frame.Model Frame.Reader.
+From P9V Require Import gen.ConstGen gen.FrameGen Frame.Model Frame.Reader Frame.Instantiate.
 Import ListNotations.
 Open Scope N_scope.
 
@@ -47,6 +47,22 @@ Fixpoint oracle_ok (tbl : oracle) (typ : N) (body pay : list N) : bool :=
   | (ty, bytes, ok) :: r => if (ty =? typ) && list_eqb bytes (body ++ pay) then ok else oracle_ok r typ body pay
   end.
 
+(** the decoder's verdict according to the protocol table (Codec/Spec9P.v, C01's decoder [recv_body]) --
+    NOT taken from the implementation; the test-only type(s) in [extra] (badDecode) always overrun *)
+Definition dec_spec (typ : N) (body pay : list N) : bool :=
+  match assocN typ extra with
+  | Some _ => false
+  | None => spec_decode typ body pay
+  end.
+
+(** the implementation's own verdicts (m.decode called directly) must be the table's *)
+Definition oracle_is_spec (tbl : oracle) : bool :=
+  forallb (fun '(ty, bytes, ok) =>
+             match plan_of lookup_reg 0 ty (len bytes) with
+             | PBody fixed => Bool.eqb ok (dec_spec ty (takeN fixed bytes) (dropN fixed bytes))
+             | PDiscard _ => negb ok
+             end) tbl.
+
 (** oracle entries given as slices (typ, offset, length, verdict) of the stream *)
 Definition slice_oracle (stream : list N) (l : list (N * N * N * bool)) : oracle :=
   map (fun '(ty, off, ln, ok) => (ty, takeN ln (dropN off stream), ok)) l.
@@ -56,6 +72,8 @@ Inductive obs_event := OEv (kind tag typ : N) (haspay : bool) (payload : list N)
 
 Definition ev_kind (e : obs_event) : N := match e with OEv k _ _ _ _ _ => k end.
 Definition ev_consumed (e : obs_event) : N := match e with OEv _ _ _ _ _ c => c end.
+Definition ev_tag' (e : obs_event) : N := match e with OEv _ t _ _ _ _ => t end.
+Definition ev_typ' (e : obs_event) : N := match e with OEv _ _ ty _ _ _ => ty end.
 
 Definition obs_eqb (a b : obs_event) : bool :=
   match a, b with
@@ -91,7 +109,7 @@ Fixpoint run_flat (tbl : oracle) (n : nat) (msize : N) (s : list N) : list outco
   match n with
   | O => []
   | S n' =>
-      let o := fst (recv lookup_reg (oracle_ok tbl) true msize s) in
+      let o := fst (recv lookup_reg dec_spec true msize s) in
       o :: (if stops o then [] else run_flat tbl n' msize (dropN (consumed o) s))
   end.
 
@@ -100,7 +118,7 @@ Fixpoint run_rd (tbl : oracle) (n : nat) (p : path) (msize : N) (sc : script) (s
   match n with
   | O => Some []
   | S n' =>
-      match recv_rd lookup_reg (oracle_ok tbl) p true msize sc s with
+      match recv_rd lookup_reg dec_spec p true msize sc s with
       | RPanic => None
       | RR o r c => if stops o then Some [o] else option_map (cons o) (run_rd tbl n' p msize c r)
       end
@@ -148,7 +166,18 @@ Fixpoint walk_ok (msize : N) (s : list N) (evs : list obs_event) : bool :=
         let size := le32 s in
         if negb (hdr_check msize size) then (ev_kind e =? 0) && (ev_consumed e =? 7) && is_nil' r
         else if size <=? len s then
-          ((ev_kind e =? 1) || (ev_kind e =? 2)) && (ev_consumed e =? size) && walk_ok msize (dropN size s) r
+          (* a complete frame: delivered iff the protocol table's decoder accepts exactly these bytes
+             ("carrying exactly the field values encoded in it, or rejected": unknown type, fixed part
+             does not fit, inconsistent counts, short body); consumed = declared size either way *)
+          let body := takeN (size - 7) (dropN 7 s) in
+          (match plan_of lookup_reg (hdr_tag s) (hdr_typ s) (size - 7) with
+           | PDiscard t => (ev_kind e =? 1) && (ev_tag' e =? t)
+           | PBody fixed =>
+               if dec_spec (hdr_typ s) (takeN fixed body) (dropN fixed body)
+               then (ev_kind e =? 2) && (ev_tag' e =? hdr_tag s) && (ev_typ' e =? hdr_typ s)
+               else (ev_kind e =? 1) && (ev_tag' e =? noTag)
+           end) &&
+          (ev_consumed e =? size) && walk_ok msize (dropN size s) r
         else (* the stream ends inside this frame: a connection error; the rejection of a frame that was
                 being thrown away (unknown type, fixed part does not fit) may still be reported; never a
                 message and never a decoder verdict on a body that did not arrive *)
@@ -157,15 +186,17 @@ Fixpoint walk_ok (msize : N) (s : list N) (evs : list obs_event) : bool :=
           (ev_consumed e <=? len s) && walk_ok msize (dropN (ev_consumed e) s) r
   end.
 
-(** frames a server must answer: well-delimited ones before the first refused / incomplete header *)
-Fixpoint walk_frames (fuel : nat) (msize : N) (s : list N) : list (N * N) (* typ, tag *) :=
+(** frames a server must answer: well-delimited ones before the first refused / incomplete header;
+    with each its type, tag and the reply the protocol table demands (tag, must be Rlerror) *)
+Fixpoint walk_frames (fuel : nat) (msize : N) (s : list N) : list (N * N * (N * bool)) :=
   match fuel with
   | O => []
   | S f =>
       if len s <? 7 then [] else
       let size := le32 s in
       if negb (hdr_check msize size) then [] else
-      if len s <? size then [] else (hdr_typ s, hdr_tag s) :: walk_frames f msize (dropN size s)
+      if len s <? size then [] else
+        (hdr_typ s, hdr_tag s, frame_reply lookup_reg dec_spec (takeN size s)) :: walk_frames f msize (dropN size s)
   end.
 
 (** does the stream end inside a frame whose header was acceptable?  (recv then throws the
@@ -219,6 +250,7 @@ Inductive fcase :=
            (hang returned verok : bool)
 | CVec (mode : N)             (* 0 scripted io.Reader, 1 unix socket *)
        (bufs : list N) (stream : list N) (sc : script) (n err : N) (contents : list (list N))
+| CAlloc (msize : N) (stream : list N) (alloc : N)     (* bytes allocated (runtime TotalAlloc) during one recv *)
 | CFlag (ok : bool).           (* a comparison made by the harness itself (300 KB payload through a socket) *)
 
 Fixpoint reg_eqb (a b : list (N * option N)) : bool :=
@@ -236,6 +268,16 @@ Definition sess_msize (msize : N) : N := N.min msize maximumLength.
 Definition sess_skip (frames : list (N * N)) : bool :=
   existsb (fun f => fst f =? p9_msgTversion) frames || negb (nodup_tags (map snd frames)).
 
+(** Allocation observed during one recv (buffers, the message, everything the decoder builds):
+    at most 64 x the accepted frame size + 64 KiB, and 64 KiB when the header is refused.
+    64: a decoded Go value is larger than its wire form -- worst case a list of empty strings, 2 bytes
+    on the wire, a 16-byte string header in memory, times up to 5 for the cumulative cost of append's
+    1.25x growth = 40x; 64 KiB: the pooled 8 KiB discard buffer, dataPool buffers, the message object,
+    reader bookkeeping.  Since size <= min(msize, 4 MiB) this is a bound in terms of msize. *)
+Definition alloc_bound (msize : N) (s : list N) : N :=
+  if len s <? 7 then 65536
+  else if hdr_check msize (le32 s) then 64 * le32 s + 65536 else 65536.
+
 Definition agrees (c : fcase) : bool :=
   match c with
   | CRegistry entries hl mx nt =>
@@ -248,7 +290,7 @@ Definition agrees (c : fcase) : bool :=
         | Some os => outcomes_agree false os events
         | None => false
         end &&
-        (if script_positive sc then flat_ok else true) &&
+        (if script_positive sc then flat_ok else true) && oracle_is_spec tbl &&
         (if is_nil' events then true else
          match sc, max, expected_reads msize stream with
          | [], 1%nat, Some l => list_eqb l reads
@@ -262,7 +304,7 @@ Definition agrees (c : fcase) : bool :=
       else negb (kind =? 2) && (consumed =? avail)
   | CSession msize stream otbl replies hang returned verok =>
       let tbl := slice_oracle stream otbl in
-      let evs := serve lookup_reg (oracle_ok tbl) true (sess_msize msize) stream in
+      let evs := serve lookup_reg dec_spec true (sess_msize msize) stream in
       if sess_skip (delivered evs) then true else
       negb hang && returned && verok &&
       (* one reply per served frame, under the tag the model predicts (unknown type: the frame's own
@@ -279,6 +321,7 @@ Definition agrees (c : fcase) : bool :=
       | FEof m _ _ => (err =? 1) && (n =? m) && list_eqb (takeN m (List.concat contents)) (takeN m stream)
       | _ => false
       end
+  | CAlloc _ _ _ => true
   | CFlag _ => true
   end.
 
@@ -298,20 +341,28 @@ Definition property_holds (c : fcase) : bool :=
        else if size <=? avail then consumed =? size else negb (kind =? 2))
   | CSession msize stream tbl replies hang returned verok =>
       let frames := walk_frames 200 (sess_msize msize) stream in
+      let ftags := map (fun f => snd (fst f)) frames in
+      let expect := map (fun f => snd f) frames in            (* (reply tag, must be Rlerror) *)
       negb hang && returned &&
-      (if sess_skip frames then true else
+      (if sess_skip (map fst frames) then true else
        let tail := walk_tail 200 (sess_msize msize) stream in
        (Nat.eqb (List.length replies) (List.length frames) ||
         (tail && Nat.eqb (List.length replies) (S (List.length frames)))) &&
+       (* every frame is answered under the tag the table demands; rejected ones by Rlerror *)
+       forallb (fun x : N * bool => Nat.leb (count_tag (fst x) (map fst expect)) (count_tag (fst x) (map rtag replies))) expect &&
+       forallb (fun x : N * bool => if snd x then
+                           Nat.leb (count_tag (fst x) (map fst (filter (fun y : N * bool => snd y) expect)))
+                                   (count_tag (fst x) (map rtag (filter (fun r => rtyp r =? p9_msgRlerror) replies)))
+                         else true) expect &&
        forallb (fun r => let t := rtag r in
-                         (Nat.leb (count_tag t (map rtag replies)) (count_tag t (map snd frames))) ||
-                         ((t =? noTag) && (rtyp r =? p9_msgRlerror)) ||
+                         (Nat.leb (count_tag t (map rtag replies)) (count_tag t (map fst expect))) ||
                          (tail && (rtyp r =? p9_msgRlerror))) replies)
   | CVec mode bufs stream sc n err contents =>
       if negb (script_positive sc) then true else
       if sumN bufs <=? len stream then
         (err =? 0) && (n =? sumN bufs) && list_eqb (List.concat contents) (takeN (sumN bufs) stream)
       else (err =? 1)
+  | CAlloc msize stream alloc => alloc <=? alloc_bound msize stream
   | CFlag ok => ok
   end.
 
